@@ -152,6 +152,41 @@ func TestC08Cipher(t *testing.T) {
 			tap.mu.Unlock()
 			recvN[d]++
 		}
+		// a write whose flush is interrupted by a write timeout after a
+		// few bytes of the header (or of the body); while the record is
+		// partly out the same party reads the next record of the opposite
+		// direction, then flushes the rest: the two directions keep their
+		// own ciphers, buffers and counters
+		writeInterrupted := func(e, peer end) {
+			i := sentN[e.dir]
+			pl := payload(i)
+			if err := e.m.WriteMessage(pl); err != nil {
+				t.Fatalf("WriteMessage: %v", err)
+			}
+			if r.Intn(3) == 0 {
+				e.rw.SetPlan([]int{18, r.Intn(len(pl) + 16)})
+			} else {
+				e.rw.SetPlan([]int{r.Intn(18)})
+			}
+			_, err := e.m.Flush(e.rw)
+			if err != nil {
+				if recvN[peer.dir] >= sentN[peer.dir] && sentN[peer.dir] < perDir {
+					write(peer)
+				}
+				if recvN[peer.dir] < sentN[peer.dir] {
+					read(e, peer.dir)
+				}
+				for k := 0; err != nil && k < 10; k++ {
+					_, err = e.m.Flush(e.rw)
+				}
+			}
+			e.rw.SetPlan(nil)
+			if err != nil {
+				t.Fatalf("Flush does not finish: %v", err)
+			}
+			sentLog[e.dir] = append(sentLog[e.dir], pl)
+			sentN[e.dir]++
+		}
 		// the later sessions are bursty: each side writes several hundred
 		// records before the other side reads any, so both ends cross a key
 		// rotation of their sending direction while the peer's records of
@@ -171,7 +206,13 @@ func TestC08Cipher(t *testing.T) {
 			}
 		}
 		for sentN["c2s"] < perDir || sentN["s2c"] < perDir || recvN["c2s"] < perDir || recvN["s2c"] < perDir {
-			switch x := r.Intn(4); {
+			switch x := r.Intn(5); {
+			case x == 4 && r.Intn(4) == 0 && sentN["c2s"] < perDir && sentN["s2c"] < perDir:
+				if r.Intn(2) == 0 {
+					writeInterrupted(cEnd, sEnd)
+				} else {
+					writeInterrupted(sEnd, cEnd)
+				}
 			case x == 0 && sentN["c2s"] < perDir:
 				write(cEnd)
 			case x == 1 && sentN["s2c"] < perDir:
